@@ -4,10 +4,12 @@ import (
 	"fmt"
 	"go/ast"
 	"go/token"
+	"go/types"
 	"sort"
 	"strings"
 
 	"pigeonverif/internal/absint"
+	"pigeonverif/internal/load"
 	"pigeonverif/internal/variants"
 )
 
@@ -27,6 +29,7 @@ func C06(c *Ctx) {
 	r.Rule("C06-d", "with LeftRecursion: under Memoize a left-recursive rule is never routed through the rule memo (a memoised first failure would be replayed on every growth step), and expression memoisation is off inside such rules")
 	r.Rule("C06-e", "an expression is answered from the memo table only if what its evaluation does is determined by the node and the offset: a kind whose evaluator stores into the label scope of its caller (a labelled expression binds its label there) or runs a code block on that scope without evaluating an operand of its own first (the code predicates: the labels they read were bound by an enclosing sequence that may have started elsewhere) is excluded from the lookup in parseExprWrap")
 	r.Rule("C06-f", "errList.add appends every error it is given: which errors are reported does not depend on how many were recorded before (re-evaluations add duplicates that only dedupe removes, so a cap or filter in add makes the result depend on Memoize)")
+	r.Rule("C06-j", "an evaluator's outcome is a function of (node, offset): every parser field a parse<Kind> routine reads in a branch condition is configuration (not stored into while expressions are evaluated), the position, the expression budget, the rule being evaluated or the handler stack - a mode flag or depth counter maintained by enclosing evaluators makes the remembered result of one context wrong in another")
 	r.Rule("C06-i", "no method of the error list drops a recorded error (stores into the list append; the de-duplication runs once, when the list is returned): an error dropped after a lookahead or a failed attempt is reported again only if its code block runs again, which a memo hit prevents")
 	r.Rule("C06-h", "a memo entry that is found is the answer: in parseExprWrap and parseRuleMemoize every path on which the lookup succeeded returns without evaluating, and every path that evaluates after a lookup assumes exactly that the lookup missed - no further condition decides whether a hit is used (a hit ignored under some condition re-evaluates the expression at that offset every time: the bound of one evaluation per expression and offset is lost)")
 	r.Rule("C06-w", "configuration flags are assigned only by their option function (and newParser defaults): memoize, debug, recover, allowInvalidUTF8, maxExprCnt, entrypoint")
@@ -56,6 +59,7 @@ func C06(c *Ctx) {
 		c06h(c, a.V)
 		errListKeepsAll(c, a.V, "C06-f")
 		errListMethodsKeepErrors(c, a.V, "C06-i")
+		c06j(c, a.V)
 	}
 	r.Min("non-optimized variants", 8, n)
 }
@@ -868,4 +872,177 @@ func c06h(c *Ctx, v *variants.Variant) {
 		}
 		r.Check(len(bad) == 0, "C06-h", "T."+it.fn+":found-entry-is-the-answer", v.Name, v.Where(fd.Pos()), fmt.Sprintf("%d paths with a lookup: a hit returns without evaluating, an evaluation assumes exactly a miss", nLook), strings.Join(uniq(bad), "; "))
 	}
+}
+
+// c06j (C06-j): what an evaluator yields is a function of (node, offset). The memo table remembers results by that
+// key, so an evaluator must not branch on parser state that changes in the course of a parse - a counter that says
+// "inside a predicate", a flag set by an enclosing evaluator - unless that state is part of what the property allows to
+// matter: the position, the expression budget, and the handler stack of throw/recover (outside the hypothesis of this
+// property). Configuration is fine: a field no function stores into besides newParser and the option constructors.
+// The rule: every parser field an evaluator reads in a branch condition is configuration or one of those three.
+func c06j(c *Ctx, v *variants.Variant) {
+	r := c.R
+	// option constructors: functions that return the Option type
+	isConfigWriter := map[string]bool{"newParser": true}
+	for _, fd := range v.Funcs() {
+		if fd.Recv == nil && fd.Type.Results != nil && len(fd.Type.Results.List) == 1 && nospace(fd.Type.Results.List[0].Type) == "Option" {
+			isConfigWriter[fd.Name.Name] = true
+		}
+	}
+	// the functions that run while expressions are evaluated: the evaluators and everything they call (the set-up of
+	// a parse - rule table, first read - happens before and is configuration as far as an evaluator can tell)
+	isEvaluator := func(fd *ast.FuncDecl) bool {
+		return fd.Recv != nil && fd.Body != nil && strings.HasPrefix(fd.Name.Name, "parse") && load.RecvName(fd) == "parser" &&
+			fd.Type.Results != nil && fd.Type.Results.NumFields() == 2 && nospace(fd.Type.Results.List[len(fd.Type.Results.List)-1].Type) == "bool"
+	}
+	byName := map[string]*ast.FuncDecl{}
+	for _, fd := range v.Funcs() {
+		byName[fd.Name.Name] = fd
+	}
+	during := map[string]bool{}
+	var mark func(fd *ast.FuncDecl)
+	mark = func(fd *ast.FuncDecl) {
+		if fd == nil || fd.Body == nil || during[fd.Name.Name] {
+			return
+		}
+		during[fd.Name.Name] = true
+		for _, ce := range callsIn(fd.Body) {
+			cn := callSel(ce)
+			if cn == "" {
+				cn = callName(ce)
+			}
+			mark(byName[cn])
+		}
+	}
+	for _, fd := range v.Funcs() {
+		if isEvaluator(fd) {
+			mark(fd)
+		}
+	}
+	mutable := map[string]string{}
+	for _, w := range fieldWrites(v) {
+		if w.Owner == "parser" && !isConfigWriter[w.Func] && during[w.Func] {
+			if _, ok := mutable[w.Field]; !ok {
+				mutable[w.Field] = w.Func
+			}
+		}
+	}
+	allowed := map[string]string{"pt": "the position", "ExprCnt": "the expression budget", "Stats": "the expression budget", "recoveryStack": "the handler stack (throw/recover: outside this property's hypothesis)",
+		"rstack": "the rule being evaluated (every expression node belongs to exactly one rule, so the top of the rule stack is a function of the node)"}
+	nEval, nReads := 0, 0
+	var bad []string
+	for _, fd := range v.Funcs() {
+		if fd.Recv == nil || fd.Body == nil || !strings.HasPrefix(fd.Name.Name, "parse") || load.RecvName(fd) != "parser" {
+			continue
+		}
+		if fd.Type.Results == nil || fd.Type.Results.NumFields() != 2 || nospace(fd.Type.Results.List[len(fd.Type.Results.List)-1].Type) != "bool" {
+			continue // evaluators return (value, matched)
+		}
+		recv := recvName(fd)
+		nEval++
+		// locals that hold (something computed from) such a field: `keep := p.mode == 0` … `if keep {`
+		readsMode := func(e ast.Expr, tainted map[string]bool) string {
+			found := ""
+			ast.Inspect(e, func(n ast.Node) bool {
+				switch x := n.(type) {
+				case *ast.FuncLit:
+					return false
+				case *ast.Ident:
+					if tainted[x.Name] && found == "" {
+						found = x.Name
+					}
+				case *ast.SelectorExpr:
+					if id, ok := x.X.(*ast.Ident); ok && id.Name == recv {
+						if s := v.Info.Selections[x]; s != nil && s.Kind() == types.FieldVal {
+							if _, isMut := mutable[x.Sel.Name]; isMut && allowed[x.Sel.Name] == "" && found == "" {
+								found = recv + "." + x.Sel.Name
+							}
+						}
+					}
+				}
+				return true
+			})
+			return found
+		}
+		tainted := map[string]bool{}
+		taintOf := map[string]string{}
+		for changed := true; changed; {
+			changed = false
+			ast.Inspect(fd.Body, func(n ast.Node) bool {
+				as, ok := n.(*ast.AssignStmt)
+				if !ok || len(as.Lhs) != len(as.Rhs) {
+					return true
+				}
+				for i, l := range as.Lhs {
+					id, ok := l.(*ast.Ident)
+					if !ok || tainted[id.Name] {
+						continue
+					}
+					if src := readsMode(as.Rhs[i], tainted); src != "" {
+						tainted[id.Name] = true
+						if t, ok := taintOf[src]; ok {
+							taintOf[id.Name] = t
+						} else {
+							taintOf[id.Name] = src
+						}
+						changed = true
+					}
+				}
+				return true
+			})
+		}
+		scan := func(cond ast.Expr) {
+			if cond != nil {
+				ast.Inspect(cond, func(n ast.Node) bool {
+					if id, ok := n.(*ast.Ident); ok && tainted[id.Name] {
+						f := strings.TrimPrefix(taintOf[id.Name], recv+".")
+						bad = append(bad, fmt.Sprintf("%s: %s branches on %s, computed from %s.%s, which %s stores into during the parse", v.Where(id.Pos()), fd.Name.Name, id.Name, recv, f, mutable[f]))
+					}
+					return true
+				})
+			}
+			if cond == nil {
+				return
+			}
+			ast.Inspect(cond, func(n ast.Node) bool {
+				se, ok := n.(*ast.SelectorExpr)
+				if !ok {
+					return true
+				}
+				if id, ok := se.X.(*ast.Ident); !ok || id.Name != recv {
+					return true
+				}
+				if s := v.Info.Selections[se]; s == nil || s.Kind() != types.FieldVal {
+					return true
+				}
+				nReads++
+				f := se.Sel.Name
+				if w, isMut := mutable[f]; isMut && allowed[f] == "" {
+					bad = append(bad, fmt.Sprintf("%s: %s branches on %s.%s, which %s stores into during the parse", v.Where(se.Pos()), fd.Name.Name, recv, f, w))
+				}
+				return true
+			})
+		}
+		ast.Inspect(fd.Body, func(n ast.Node) bool {
+			switch x := n.(type) {
+			case *ast.FuncLit:
+				return false
+			case *ast.IfStmt:
+				scan(x.Cond)
+			case *ast.ForStmt:
+				scan(x.Cond)
+			case *ast.SwitchStmt:
+				scan(x.Tag)
+			case *ast.CaseClause:
+				for _, e := range x.List {
+					scan(e)
+				}
+			}
+			return true
+		})
+	}
+	sort.Strings(bad)
+	r.Check(len(bad) == 0 && nEval >= 15, "C06-j", "T:evaluators-branch-on-node-position-and-configuration-only", v.Name, "builder/static_code.go",
+		fmt.Sprintf("%d evaluators, %d parser fields read in branch conditions: configuration, position, budget or handler stack", nEval, nReads),
+		strings.Join(uniq(bad), "; ")+": the outcome of an evaluation then depends on where it was started from, but the memo table answers by (node, offset) - with Memoize(true) a result computed in one context is replayed in another")
 }
